@@ -58,5 +58,5 @@ RefDefault(FB, ax, v) == Clamp(RefRaw(FB, ax, v), -FixOne(FB), FixOne(FB))
 
 \* @type: (Int, Int, Int) => <<Int, Int, Int>>;
 Axis(mn, df, mx) == <<mn, df, mx>>
-IsI32(x) == x >= -2147483648 /\ x <= 2147483647
+IsI32(x) == x >= -2147483647 - 1 /\ x <= 2147483647
 =============================================================================
